@@ -4,5 +4,10 @@ sys.path.insert(0, os.path.dirname(os.path.dirname(os.path.abspath(__file__))))
 from pyvc.runner import run_units, print_results
 mod = importlib.import_module(sys.argv[1])
 names = sys.argv[2:]
-units = [u for u in mod.UNITS if not names or u.name in names]
+allu = list(mod.UNITS)
+for extra in ("LIST_UNITS", "EXPR_UNITS", "NEXT_UNITS"):
+    for u in getattr(mod, extra, []):
+        if u not in allu:
+            allu.append(u)
+units = [u for u in allu if not names or u.name in names]
 print_results(run_units(units, repo=os.environ.get("VERIF_REPO")))
